@@ -287,7 +287,8 @@ def run_threads(ctx, r):
         rounds = 0
         while not ctx.expired():
             rounds += 1
-            corpus = [next(r.choice(gens))[1][:1000] for _ in range(10)]
+            xor_heavy = rounds % 2 == 0  # every other round: only inputs that go through the xor helpers shared by three decoders
+            corpus = [] if xor_heavy else [next(r.choice(gens))[1][:1000] for _ in range(10)]
             while len(corpus) < 14:  # module-level helpers used by several decoders in a row
                 xd, _, _, form = codecgen.c13_xor_case(r)
                 if form != "bytes":
